@@ -1,9 +1,13 @@
 import Drive.Json
 import PlaybackModel.Async
+import PlaybackModel.AsyncCaller
 /-! Line-protocol handlers for the asynchronous cassette model (C12).
 
 * `c12.run`  : `{"programs":[[op..]..],"sched":[step..],"recs":[n..],"cfg":{..}?}` → the state after the schedule
 * `c12.sync` : `{"programs":[[op..]..],"recs":[n..]}` → the synchronous twin (producers one after the other)
+* `c12.caller` : `{"reqs":[{"r":rec,"k":"set"|"meta"|"save"|"abort","key":n,"val":n}..],"recs":[n..]}` → one caller's requests:
+  what it sees and what is stored when it records directly (`direct`) and through the wrapper (`forward`, then the buffered
+  operations applied in order)
 
 op   = `{"p":producer,"q":seq,"r":recording,"k":"set"|"meta"|"save","key":n,"val":n,"x":poisoned}`
 step = `"p<i>"` (produce i) | `"check"` | `"lock"` | `"swap"` | `"exec"` | `"timer"` | `"close"`
@@ -94,6 +98,31 @@ def syncH : Handler := fun j => do
   let r := syncRun applyOp Store.empty ps.flatten
   pure (jObj [("applied", traceJson r.2), ("store", storeJson r.1 (← recsOf j))])
 
-def handlers : List (String × Handler) := [("c12.run", runH), ("c12.sync", syncH)]
+open PlaybackModel.AsyncCaller in
+def toReq (j : Json) : Except String Req := do
+  let k ← strField j "k"
+  let kind ← match k with
+    | "set" => do pure (RKind.setData (← natField j "key") (← natField j "val"))
+    | "meta" => do pure (RKind.addMeta (← natField j "key") (← natField j "val"))
+    | "save" => pure RKind.save
+    | "abort" => pure RKind.abort
+    | _ => throw s!"bad request kind {k}"
+  pure { recId := (← natField j "r"), kind := kind }
+
+open PlaybackModel.AsyncCaller in
+def callerH : Handler := fun j => do
+  let reqs ← mapM' toReq (← arrField j "reqs")
+  let recs ← recsOf j
+  let d := direct Store.empty reqs
+  let f := forward 0 0 (fun _ => false) reqs
+  let w := (syncRun applyOp Store.empty f.1).1
+  let viewJson (st : Store) : Json := jArr (recs.map fun n =>
+    jArr [jNat n, match (st n).saved with
+                  | none => Json.null
+                  | some (dd, m) => jArr [kvs dd, kvs m]])
+  pure (jObj [("directSeen", jArr (d.2.map Json.bool)), ("asyncSeen", jArr (f.2.map Json.bool)),
+              ("directStored", viewJson d.1), ("asyncStored", viewJson w)])
+
+def handlers : List (String × Handler) := [("c12.run", runH), ("c12.sync", syncH), ("c12.caller", callerH)]
 
 end Drive.Async
